@@ -263,26 +263,57 @@ def _heap_version(ex, st, key):
 
 def _key_sort(key):
     from .engine import _arr_sort
-    if key == "$len":
-        return _arr_sort([Obj], z3.IntSort())
+    if key.startswith("$"):
+        return _container_key_sort(key)
     base, k = key.rsplit("#", 1) if "#" in key else (key, "0")
     k = int(k)
     if base.startswith("@"):
         ty = REG.attrs[base[1:]]
         return _arr_sort([Obj, z3.IntSort()], ty.sorts()[k])
-    if base.startswith("$e:") or base.startswith("$dv:") or base.startswith("$dom:") or base.startswith("$sum:"):
-        raise Unsupported(f"heap key {key} must be materialised before use in reads/modifies")
     ty = REG.field_ty(base)
     if ty is None:
         raise Unsupported(f"unknown heap key {key}")
     return _arr_sort([Obj], ty.sorts()[k])
 
 
+def _container_key_sort(key):
+    from .engine import _arr_sort
+    kind, rest = key.split("@", 1)
+    region = rest.split(":", 1)[0]
+    ty = T.REGIONS.get(region)
+    if ty is None:
+        raise Unsupported(f"unknown container region {region!r} in heap key {key}")
+    if kind == "$len":
+        return _arr_sort([Obj], z3.IntSort())
+    k = int(key.rsplit("#", 1)[1]) if "#" in key else 0
+    if kind == "$e":
+        return _arr_sort([Obj, z3.IntSort()], ty.t.sorts()[k])
+    if kind == "$sum":
+        return _arr_sort([Obj], z3.RealSort())
+    ks = ty.k.sorts()[0]
+    if kind == "$dom":
+        return _arr_sort([Obj, ks], z3.BoolSort())
+    if kind == "$dv":
+        return _arr_sort([Obj, ks], ty.v.sorts()[k])
+    raise Unsupported(f"heap key {key}")
+
+
 def expand_keys(names):
-    """'field' -> all component keys; '@attr' likewise; '$list:<field>' -> element arrays of that list field."""
+    """'Cls.field' -> its component arrays; '@attr' likewise; '$region:<region>' -> every array of that
+    container region (and of the regions nested in it)."""
     out = []
     for n in names:
-        if "#" in n or n == "$len":
+        if n.startswith("$region:"):
+            reg = n[len("$region:"):]
+            found = False
+            for r, ty in T.REGIONS.items():
+                if r == reg or r.startswith(reg + "."):
+                    out += ty.all_keys()
+                    found = True
+            if not found:
+                raise Unsupported(f"unknown container region {reg}")
+            continue
+        if "#" in n or n.startswith("$len@"):
             out.append(n)
             continue
         if n.startswith("@"):
@@ -299,17 +330,6 @@ def expand_keys(names):
 
 
 def _havoc_key(ex, st, key):
-    if key.startswith("$") and "#" not in key and key != "$len":
-        # container content keys given by type signature, e.g. "$e:Tuple[Ref[Task],Real]" / "$dv:Int:Real" / "$dom:Int"
-        matched = [k for k in list(st.heap.keys()) if k == key or k.startswith(key + "#")]
-        known = set(matched)
-        for k in known:
-            st.heap[k] = z3.Const(T.fresh_name("H!" + k), st.heap[k].sort())
-        # also keys never touched so far: give them a fresh version lazily through a version bump table
-        st.heap.setdefault("$bump:" + key, z3.IntVal(0))
-        ex.bumped = getattr(ex, "bumped", set())
-        ex.bumped.add(key)
-        return
     sort = st.heap[key].sort() if key in st.heap else _key_sort(key)
     st.heap[key] = z3.Const(T.fresh_name("H!" + key), sort)
 
@@ -456,6 +476,13 @@ def _spec_form(ex, name, node, st):
         for a in node.args[1:]:
             args += ex.ev(a, st).terms
         return V(fv.ty.ret, [fv.fn(*args)])
+    if name == "anc":
+        # anc(x, k): the (k+1)-th ancestor of tree node x (k = 0: parent), None beyond the root
+        x = T.opt_inner(ex.ev(node.args[0], st))
+        k = ex.ev(node.args[1], st)
+        fn_none = z3.Function("anc_none", Obj, z3.IntSort(), z3.BoolSort())
+        fn_obj = z3.Function("anc_obj", Obj, z3.IntSort(), Obj)
+        return V(T.Opt(x.ty), [fn_none(x.t, k.t), fn_obj(x.t, k.t)])
     if name.startswith("uf_"):
         ret = UF_RET.get(name, T.Real)
         args = []
@@ -490,7 +517,7 @@ def _syn_integral(e):
     return False
 
 
-UF_RET = {"uf_isWorkingTime": T.Bool, "uf_tzoff": T.Real}
+UF_RET = {"uf_isWorkingTime": T.Bool, "uf_tzoff": T.Real, "uf_sbidx": T.Int}
 
 
 def parse_ty(spec: str):
@@ -545,7 +572,7 @@ def _builtin(ex, name, node, st):
     if name == "len":
         v = T.opt_inner(ex.ev(args[0], st))
         if isinstance(v.ty, T.List):
-            return T.mk_int(ex.h.list_len(st, v.t), cint=bool(ex.c.cython))
+            return T.mk_int(ex.h.list_len(st, v.t, v.ty), cint=bool(ex.c.cython))
         if isinstance(v.ty, T.Tuple):
             return T.mk_int(len(v.ty.ts))
         if isinstance(v.ty, T.Ref):
@@ -576,10 +603,10 @@ def _builtin(ex, name, node, st):
         if isinstance(v.ty, T.List):
             # shallow copy
             r = ex.new_obj(st, "list")
-            n = ex.h.list_len(st, v.t)
-            ex.h.list_set_len(st, r, n)
+            n = ex.h.list_len(st, v.t, v.ty)
+            ex.h.list_set_len(st, r, n, v.ty)
             for k, s in enumerate(v.ty.t.sorts()):
-                key = f"$e:{v.ty.t.sig()}#{k}"
+                key = v.ty.k_elem(k)
                 a = ex.h.arr(st, key, [Obj, z3.IntSort()], s)
                 st.heap[key] = z3.Store(a, r, z3.Select(a, v.t))
             for k in v.ty.ghost_sum:
@@ -614,7 +641,7 @@ def _quant_genexp(ex, name, ge, node, st):
     if not isinstance(it.ty, T.List):
         raise Unsupported(f"all/any over {it.ty}", node)
     j = z3.Int(T.fresh_name("g"))
-    n = ex.h.list_len(st, it.t)
+    n = ex.h.list_len(st, it.t, it.ty)
     elem = ex.h.list_get(st, it.ty, it.t, j)
     st2 = st.fork()
     nobl = len(ex.obls)
@@ -678,6 +705,37 @@ def _method(ex, f: ast.Attribute, node, st):
     if isinstance(ty, T.List):
         if name == "append":
             ex.list_append(st, base, ex.ev(node.args[0], st))
+            return T.NONE
+        if name == "extend":
+            a0 = node.args[0]
+            n0 = ex.h.list_len(st, base.t, ty)
+            j = z3.Int(T.fresh_name("xj"))
+            if (isinstance(a0, ast.BinOp) and isinstance(a0.op, ast.Mult) and isinstance(a0.left, ast.List)
+                    and len(a0.left.elts) == 1):
+                init = T.coerce(ex.ev(a0.left.elts[0], st), ty.t)
+                cnt = ex.ev(a0.right, st)
+                m = z3.If(cnt.t > 0, cnt.t, 0)
+                elems = lambda k: init.terms[k]        # noqa: E731
+                addsum = lambda k: to_real(init.terms[k]) * to_real(m)   # noqa: E731
+            else:
+                other = T.opt_inner(ex.ev(a0, st))
+                if not isinstance(other.ty, T.List) or other.ty.t != ty.t:
+                    raise Unsupported("list.extend with this argument", node)
+                m = ex.h.list_len(st, other.t, other.ty)
+                oe = ex.h.list_get(st, other.ty, other.t, j - n0)
+                elems = lambda k: oe.terms[k]          # noqa: E731
+                if ty.ghost_sum:
+                    raise Unsupported("extend of a list with ghost sum by another list", node)
+                addsum = None
+            for k, srt in enumerate(ty.t.sorts()):
+                key = ty.k_elem(k)
+                a = ex.h.arr(st, key, [Obj, z3.IntSort()], srt)
+                old_row = z3.Select(a, base.t)
+                new_row = z3.Lambda([j], z3.If(z3.And(j >= n0, j < n0 + m), elems(k), z3.Select(old_row, j)))
+                st.heap[key] = z3.Store(a, base.t, new_row)
+            ex.h.list_set_len(st, base.t, n0 + m, ty)
+            for k in ty.ghost_sum:
+                ex.h.list_set_sum(st, ty, base.t, k, ex.h.list_sum(st, ty, base.t, k) + addsum(k))
             return T.NONE
         raise Unsupported(f"list.{name}", node)
     if isinstance(ty, T.Ref):
